@@ -1,7 +1,374 @@
 package peersdrv
 
-import "verifharness/vh"
+// stress_test.go: seeded concurrent stress of the real pool / timedQueue (binding B1). Caller goroutines,
+// a clock goroutine and the queue's timer goroutines run freely; the hooks report every lock operation
+// while the mutex is held, and each report becomes one step of PeerPool.tla in an NDJSON file that TLC
+// validates against the fine-grained model (spec/peers/PoolTrace.tla). Every call runs under a watchdog.
 
-type StressPlan struct{}
+import (
+	"context"
+	"encoding/json"
+	"fmt"
+	"math/rand"
+	"os"
+	"sort"
+	"strings"
+	"sync"
+	"time"
 
-func runStress(rep *vh.Report, sp *StressPlan) {}
+	"github.com/libp2p/go-libp2p/core/peer"
+
+	"verifharness/vh"
+)
+
+type StressPlan struct {
+	Runs    int      `json:"runs"`
+	Workers []string `json:"workers"`
+	Peers   []string `json:"peers"`
+	Ops     int      `json:"ops"`   // per worker
+	Ticks   int      `json:"ticks"` // per run
+	TTL     int      `json:"ttl"`
+	Cleanup int      `json:"cleanup"`
+	Out     string   `json:"out"`
+}
+
+type traceWriter struct {
+	f     *os.File
+	lines int
+}
+
+func (w *traceWriter) emit(v map[string]any) {
+	b, err := json.Marshal(v)
+	if err != nil {
+		panic(err)
+	}
+	w.f.Write(append(b, '\n'))
+	w.lines++
+}
+
+// poolJSON renders a snapshot with an entry for every peer of the plan (absent = "none" / 0).
+func poolJSON(mp MPool, peerNames []string) map[string]any {
+	st := map[string]string{}
+	cds := map[string]int{}
+	for _, p := range peerNames {
+		st[p] = "none"
+		cds[p] = 0
+	}
+	for p, s := range mp.St {
+		st[p] = s
+	}
+	for p, n := range mp.Cds {
+		cds[p] = n
+	}
+	return map[string]any{"list": nz(mp.List), "st": st, "ac": mp.Ac, "idx": mp.Idx, "hp": mp.Hp, "gen": mp.Gen, "cds": cds}
+}
+
+func runStress(rep *vh.Report, sp *StressPlan) {
+	f, err := os.Create(sp.Out)
+	if err != nil {
+		panic(err)
+	}
+	defer f.Close()
+	tw := &traceWriter{f: f}
+	for run := 0; run < sp.Runs; run++ {
+		seed := vh.Seed()*1000003 + int64(run)
+		tw.emit(map[string]any{"act": "reset"})
+		ok := stressRun(rep, sp, tw, seed, run)
+		rep.Count("stress_runs", 1)
+		if !ok {
+			break
+		}
+	}
+	rep.Set("stress_trace_lines", tw.lines)
+}
+
+// stressRun performs one concurrent run; false = the run hung (reported) and the trace is unusable.
+func stressRun(rep *vh.Report, sp *StressPlan, tw *traceWriter, seed int64, run int) bool {
+	slots := []string{}
+	rp := newRealPool(sp.TTL, sp.Cleanup, slots)
+	s := rp.sched
+	s.free = true
+	s.uniqueTimers = true
+	var world sync.RWMutex // the clock advances only while no goroutine is between reading it and reporting
+	s.preLock = func(ev string) {
+		if ev == "push.locked" || ev == "releaseExpired.locked" {
+			world.RLock()
+		}
+	}
+	s.postUnlock = func(ev string) {
+		if ev == "push.unlock" || ev == "releaseExpired.unlock" {
+			world.RUnlock()
+		}
+	}
+	// per-goroutine bookkeeping for the translation of hook events into model steps (under s.mu)
+	type tstate struct {
+		nextIter int
+		pushed   bool
+	}
+	ts := map[*gstate]*tstate{}
+	lastCh := rp.lastCh
+	gen := 0
+	snapPool := func() map[string]any {
+		st := rp.vp.StateUnlocked()
+		if st.HasPeerCh != lastCh {
+			gen++
+			lastCh = st.HasPeerCh
+		}
+		mp := MPool{List: []string{}, St: map[string]string{}, Ac: st.ActiveCount, Idx: st.NextIdx, Hp: st.HasPeer, Gen: gen, Cds: map[string]int{}}
+		for _, id := range st.PeersList {
+			mp.List = append(mp.List, string(id))
+		}
+		for id, x := range st.Statuses {
+			mp.St[string(id)] = statusName[x]
+		}
+		for id, n := range st.Cooldowns {
+			mp.Cds[string(id)] = n
+		}
+		return poolJSON(mp, sp.Peers)
+	}
+	snapItems := func() []MItem {
+		items := []MItem{}
+		for _, it := range rp.vp.QueueUnlocked() {
+			items = append(items, MItem{Peer: string(it.ID), At: int(it.CreatedAt.Sub(rp.t0) / time.Second)})
+		}
+		return items
+	}
+	s.onEvent = func(g *gstate, e Event) {
+		t := ts[g]
+		if t == nil {
+			t = &tstate{}
+			ts[g] = t
+		}
+		parts := strings.SplitN(e.Ev, ".", 2)
+		m, pt := parts[0], parts[1]
+		out := map[string]any{"th": g.name, "seq": e.Seq}
+		switch pt {
+		case "enter":
+			switch m {
+			case "push", "afterCooldown", "releaseExpired":
+				return
+			case "tryGet":
+				if g.curOp == "next" {
+					t.nextIter++
+					if t.nextIter == 1 {
+						return
+					}
+					out["act"] = "next_wake"
+					break
+				}
+				fallthrough
+			default:
+				t.pushed = false
+				out["act"] = "enter"
+				p := g.curPeer
+				if p == "" {
+					p = none
+				}
+				out["arg"] = map[string]any{"op": m, "peer": p}
+			}
+		case "locked":
+			if e.Obj == "queue" {
+				out["act"] = "lock_queue"
+			} else {
+				out["act"] = "lock_pool"
+			}
+		case "rlocked":
+			out["act"] = "rlock_pool"
+		case "unlock":
+			switch m {
+			case "add", "remove":
+				out["act"], out["arg"], out["pool"] = m, g.curPeer, snapPool()
+			case "tryGet":
+				out["act"], out["pool"] = "tryGet", snapPool()
+			case "putOnCooldown":
+				out["act"], out["arg"], out["ret"], out["pool"] = "putOnCooldown", e.Peer, t.pushed, snapPool()
+			case "afterCooldown":
+				out["act"], out["arg"], out["pool"] = "afterCooldown", e.Peer, snapPool()
+			case "push":
+				t.pushed = true
+				out["act"], out["arg"], out["items"] = "push", e.Peer, snapItems()
+			case "releaseExpired":
+				out["act"], out["items"] = "release", snapItems()
+			}
+		case "runlock":
+			switch m {
+			case "next":
+				out["act"] = "next_read"
+			default:
+				out["act"] = m
+			}
+		case "exit":
+			if m == "next" {
+				out["act"] = "next_exit"
+			} else {
+				return
+			}
+		default: // loop, wait
+			return
+		}
+		tw.emit(out)
+	}
+	s.install()
+	defer s.uninstall()
+
+	emit := func(v map[string]any) { // events the harness itself contributes, serialised with the hook's
+		s.mu.Lock()
+		s.seq++
+		v["seq"] = s.seq
+		tw.emit(v)
+		s.mu.Unlock()
+	}
+
+	var wg sync.WaitGroup
+	stopClock := make(chan struct{})
+	clockDone := make(chan struct{})
+	go func() { // the clock
+		defer close(clockDone)
+		r := rand.New(rand.NewSource(seed ^ 0x5eed))
+		for i := 0; i < sp.Ticks; i++ {
+			select {
+			case <-stopClock:
+				return
+			case <-time.After(time.Duration(200+r.Intn(1500)) * time.Microsecond):
+			}
+			world.Lock()
+			rp.clk.Add(time.Second)
+			emit(map[string]any{"act": "tick"})
+			world.Unlock()
+		}
+	}()
+	opNames := []string{"add", "add", "remove", "tryGet", "tryGet", "next", "putOnCooldown", "putOnCooldown", "has", "len", "peers"}
+	for wi, wname := range sp.Workers {
+		wg.Add(1)
+		r := rand.New(rand.NewSource(seed + int64(wi)*7907))
+		wname := wname
+		go func() {
+			defer wg.Done()
+			for k := 0; k < sp.Ops; k++ {
+				op := opNames[r.Intn(len(opNames))]
+				p := ""
+				if op == "add" || op == "remove" || op == "putOnCooldown" || op == "has" {
+					p = sp.Peers[r.Intn(len(sp.Peers))]
+				}
+				cancelAfter := time.Duration(r.Intn(3000)) * time.Microsecond
+				done := make(chan struct{})
+				g := s.startOp(wname, func(g *gstate) any {
+					defer close(done)
+					s.mu.Lock()
+					g.curOp, g.curPeer = op, p
+					s.mu.Unlock()
+					switch op {
+					case "add":
+						rp.vp.Add(peer.ID(p))
+					case "remove":
+						rp.vp.Remove(peer.ID(p))
+					case "tryGet":
+						id, ok := rp.vp.TryGet()
+						v := none
+						if ok {
+							v = string(id)
+						}
+						emit(map[string]any{"act": "ret", "th": wname, "op": op, "val": v})
+					case "putOnCooldown":
+						rp.vp.PutOnCooldown(peer.ID(p))
+					case "has":
+						emit(map[string]any{"act": "ret", "th": wname, "op": op, "val": rp.vp.Has(peer.ID(p))})
+					case "len":
+						emit(map[string]any{"act": "ret", "th": wname, "op": op, "val": rp.vp.Len()})
+					case "peers":
+						ps := []string{}
+						for _, id := range rp.vp.Peers() {
+							ps = append(ps, string(id))
+						}
+						sort.Strings(ps)
+						emit(map[string]any{"act": "ret", "th": wname, "op": op, "val": ps})
+					case "next":
+						ctx, cancel := context.WithCancel(context.Background())
+						emit(map[string]any{"act": "enter", "th": wname, "arg": map[string]any{"op": "next", "peer": none}})
+						ch := rp.vp.Next(ctx)
+						v := none
+						select {
+						case id := <-ch:
+							v = string(id)
+						case <-time.After(cancelAfter):
+							emit(map[string]any{"act": "cancel", "th": wname})
+							cancel()
+							select {
+							case id := <-ch:
+								v = string(id)
+							case <-g.exited:
+								select {
+								case id := <-ch:
+									v = string(id)
+								default:
+								}
+							}
+						}
+						cancel()
+						<-g.exited // the goroutine inside next() has ended
+						emit(map[string]any{"act": "ret", "th": wname, "op": op, "val": v})
+					}
+					return nil
+				})
+				_ = g
+				select {
+				case <-done:
+				case <-time.After(watchdog):
+					return // reported by the outer watchdog
+				}
+				rep.Count("stress_ops", 1)
+			}
+		}()
+	}
+	finished := make(chan struct{})
+	go func() { wg.Wait(); close(finished) }()
+	select {
+	case <-finished:
+	case <-time.After(watchdog + 5*time.Second):
+		// some call did not return: is it a lock cycle?
+		d1 := dumpGoroutines()
+		time.Sleep(time.Second)
+		d2 := dumpGoroutines()
+		var stuck []string
+		for id, g1 := range d1 {
+			if g2, ok := d2[id]; ok && strings.Contains(g1.Raw, "/shrex/peers.(*") &&
+				(strings.HasPrefix(g2.State, "sync.Mutex.Lock") || strings.HasPrefix(g2.State, "sync.RWMutex")) && g1.State == g2.State {
+				stuck = append(stuck, fmt.Sprintf("goroutine %d [%s] %s", id, g2.State, firstPeersFrame(g2)))
+			}
+		}
+		sort.Strings(stuck)
+		replay := map[string]any{"kind": "pool-stress", "seed": seed, "run": run, "plan": sp}
+		if len(stuck) >= 2 {
+			rep.Violate("C17/pool/deadlock/concurrent-stress", fmt.Sprintf("calls on the real pool did not return within %s in a concurrent run; goroutines blocked on the pool's mutexes in two dumps one second apart:\n%s",
+				watchdog, strings.Join(stuck, "\n")), replay)
+		} else {
+			rep.Inconclusivef("stress run %d: calls did not return within %s but no lock cycle was found", run, watchdog)
+		}
+		close(stopClock)
+		return false
+	}
+	close(stopClock)
+	<-clockDone
+	// let the timer goroutines that are still running finish (they hold no gate in free mode)
+	deadline := time.Now().Add(watchdog)
+	for len(s.liveTimers()) > 0 && time.Now().Before(deadline) {
+		time.Sleep(time.Millisecond)
+	}
+	if len(s.liveTimers()) > 0 {
+		rep.Inconclusivef("stress run %d: a timer goroutine did not finish", run)
+		return false
+	}
+	rep.Count("traces_validated_against_impl", 0)
+	return true
+}
+
+func firstPeersFrame(g goroutineInfo) string {
+	for _, f := range g.Frames {
+		if strings.Contains(f, "/shrex/peers.") {
+			if i := strings.Index(f, "peers."); i >= 0 {
+				return f[i:]
+			}
+		}
+	}
+	return ""
+}
